@@ -822,14 +822,14 @@ func ruleCommentCollection(c *Ctx) {
 		return
 	}
 	sk := lf.skipper
-	buf := c.fieldByType("lexer", "Lexer", func(t types.Type) bool {
+	buf := c.fieldByTypeUsedIn("lexer", "Lexer", func(t types.Type) bool {
 		s, ok := t.Underlying().(*types.Slice)
 		if !ok {
 			return false
 		}
 		b, ok := s.Elem().Underlying().(*types.Basic)
 		return ok && b.Kind() == types.String
-	})
+	}, "(*lexer.Lexer).readLeadingComments", "(*lexer.Lexer).NewToken")
 	// reset at entry
 	reset := false
 	for _, in := range sk.Blocks[0].Instrs {
